@@ -355,6 +355,25 @@ def claim_list_protocol(cx, res, kf):
                             res.must_be_unsat(pc + [z3.And(z3.Not(w2[2]), w2[3], w2[4] == term)],
                                               "%s: the list's own closer after a dotted tail is rejected as trailing characters" % fname,
                                               None)
+
+                            def onm_trunc(m, fname=fname):
+                                api = "value" if fname == "parse_list" else "datum"
+                                for text in (b"(a . b", b"(1 2 . 3 ", b"[x . \"y\"", b"(a . (1 2)", b"(a . b ;c"):
+                                    nat = RP.parse(text, "default", "slice", api)
+                                    res.replays += 1
+                                    errs = [i["err"] for i in nat.get("items", []) if "err" in i]
+                                    if not errs or errs[0].get("cat") != "eof":
+                                        return {"replayed": True, "observed": nat, "witness": {"kind": "parse", "input_hex": text.hex(), "opts": "default", "src": "slice", "api": api, "fast": True}}
+                                return {"replayed": False}
+                            res.must_be_unsat(pc + [z3.Not(w2[2]), z3.Not(w2[3])],
+                                              "%s: the end of input after a dotted tail is reported as trailing characters (a list cut off there is "
+                                              "`more data needed`, an EOF error)" % fname, onm_trunc)
+                        continue
+                    if out == ("err", "EofWhileParsingList"):
+                        wss = [e for e in evs if e[0] == "ws"]
+                        if len(wss) == 2:
+                            w2 = wss[1]
+                            res.must_be_unsat(pc + [z3.Not(z3.And(z3.Not(w2[2]), z3.Not(w2[3])))], "%s: EOF error after a dotted tail without end of input" % fname, None)
                         continue
                     continue
                 if "symsuffix" in kinds:
